@@ -1,10 +1,10 @@
 (* C13 - Approximate math functions meet their stated error bounds and are monotone.
    Property theorems only; each is closed by a lemma of C13/*Proofs.v.  Raw mantissas throughout:
    a Dec value v is the integer v*10^18 (P18), a BigDec value the integer v*10^36 (P36). *)
-From Coq Require Import ZArith List Bool.
+From Coq Require Import ZArith List Bool Reals.
 Import ListNotations.
 From Osmo Require Import Base.DecModel C13.Common C13.Sqrt C13.SqrtProofs C13.SigFig C13.SigFigProofs
-  C13.BinSearch C13.BinSearchProofs.
+  C13.BinSearch C13.BinSearchProofs C13.Exp2 C13.Exp2Real C13.Exp2Proofs.
 Open Scope Z_scope.
 
 (* ---------- monotone square roots (integers only, axiom-free) ---------- *)
@@ -152,3 +152,28 @@ Proof.
   repeat split; try (vm_compute; reflexivity).
   intros x. unfold search_fn_int, int_check. cbn [Z.eqb]. destruct (int_fits _); discriminate.
 Qed.
+
+(* ---------- Exp2 (real analysis: the standard library's real-number axioms) ---------- *)
+
+(* bdR z = IZR z / 10^36, the value of a raw BigDec mantissa; Rpower 2 y = exp (y * ln 2) = 2^y.
+   On the whole documented domain 0 <= e <= 2^9 the result is within a relative 10^-19 (< the documented 10^-18) of 2^e:
+   (a) Coq-Interval on the real rational function with the GENERATED coefficients (|h/(p 2^x) - 1| <= 10^-20 on [0,1]),
+   (b) fixed-point error analysis of the 6 MulMut / 12 Mul / 12 AddMut / QuoMut of the model (<= 33 ulps of 10^-36),
+   (c) the exact left shift by the integer part. *)
+Theorem C13_exp2_relative_error : forall e r, exp2 e = Ok r ->
+  (0 <= e <= 512 * P36)%Z /\
+  (Rabs (bdR r - Rpower 2 (bdR e)) <= 1 / 10 ^ 19 * Rpower 2 (bdR e))%R.
+Proof. exact exp2_bound. Qed.
+Print Assumptions C13_exp2_relative_error.
+
+Theorem C13_exp2_negative_fails : forall e, e < 0 -> exp2 e = Err ENegExponent.
+Proof. exact exp2_negative. Qed.
+Print Assumptions C13_exp2_negative_fails.
+Theorem C13_exp2_too_large_fails : forall e, 512 * P36 < e -> exp2 e = Err EExpTooLarge.
+Proof. exact exp2_too_large. Qed.
+Print Assumptions C13_exp2_too_large_fails.
+
+Example C13_exp2_nonvacuous :
+  exp2 (15 * 10 ^ 35) = Ok 2828427124746190097603377448419396158 /\          (* 2^1.5 = 2.8284271247461900976033774484193961571... *)
+  exp2 0 = Ok P36 /\ exp2 (512 * P36) = Ok (2 ^ 512 * P36) /\ exp2 (512 * P36 + 1) = Err EExpTooLarge /\ exp2 (-1) = Err ENegExponent.
+Proof. vm_compute. repeat split. Qed.
